@@ -340,7 +340,9 @@ def semi_singleton_metaclass(hashfunc: Callable | None = None) -> type:
         _SemiSingleton__semisingleton_hashfunc = hashfunc
 
         def __call__(cls, *args, **kwargs):
-            key = hashfunc(args, kwargs)
+            # instances are per class: classes sharing this metaclass object
+            # (including subclasses) must not see each other's instances
+            key = (cls, hashfunc(args, kwargs))
             if key not in cls._SemiSingleton__semisingleton_instance_map:
                 cls._SemiSingleton__semisingleton_instance_map[key] = super(
                     _SemiSingleton, cls
@@ -395,7 +397,7 @@ def add_mapping(obj: object, *args, **kwargs):
     # mappings
     # see the note at the top of the file regarding the type-checker silencing
     hashfunc = cls._SemiSingleton__semisingleton_hashfunc  # type: ignore
-    hashid = hashfunc(args, kwargs)
+    hashid = (type(obj), hashfunc(args, kwargs))
 
     # store the hashed identifier in the metaclass map of hashes to instances
     cls._SemiSingleton__semisingleton_instance_map[hashid] = obj  # type: ignore
@@ -447,7 +449,7 @@ def drop_semi_singleton_mapping(cls: type, *args, **kwargs):
     # use the metaclass's hash function to identify the primary key
     # see the note at the top of the file regarding the type-checker silencing
     hashfunc = mcls._SemiSingleton__semisingleton_hashfunc  # type: ignore
-    hashid = hashfunc(args, kwargs)
+    hashid = (cls, hashfunc(args, kwargs))
 
     del mcls._SemiSingleton__semisingleton_instance_map[hashid]
 
@@ -492,7 +494,7 @@ def check_semi_singleton_entry_exists(cls: type, *args, **kwargs) -> object:
     # use the metaclass's hash function to identify the primary key
     # see the note at the top of the file regarding the type-checker silencing
     hashfunc = mcls._SemiSingleton__semisingleton_hashfunc  # type: ignore
-    hashid = hashfunc(args, kwargs)
+    hashid = (cls, hashfunc(args, kwargs))
 
     if hashid in mcls._SemiSingleton__semisingleton_instance_map:  # type: ignore
         return mcls._SemiSingleton__semisingleton_instance_map[hashid]  # type: ignore
@@ -530,7 +532,10 @@ def get_all_semi_singleton_instances(cls: type) -> Generator[object]:
     :param cls: Data type to check singleton instances for.
     :return: Generator expression yielding semi-singleton instances.
     """
-    yield from type(cls)._SemiSingleton__semisingleton_instance_map.values()  # type: ignore
+    imap = type(cls)._SemiSingleton__semisingleton_instance_map  # type: ignore
+    for key, inst in imap.items():
+        if key[0] is cls:
+            yield inst
 
 
 def clear_semi_singleton(cls: type) -> None:
@@ -565,4 +570,6 @@ def clear_semi_singleton(cls: type) -> None:
 
     :param cls: Class to clear semisingleton states from.
     """
-    type(cls)._SemiSingleton__semisingleton_instance_map = {}  # type: ignore
+    imap = type(cls)._SemiSingleton__semisingleton_instance_map  # type: ignore
+    for key in [k for k in imap if k[0] is cls]:
+        del imap[key]
